@@ -54,6 +54,20 @@ CLAIMS["C09"] = (
     "granular CFG.",
     "DESIGN.md §2 C09")
 
+CLAIMS["C11"] = (
+    "abstract interpretation (fork-and-replay) of _calculate_target_power over a symbolic "
+    "stored-target / new-or-unchanged domain; term-shape and who-may-construct rules",
+    "Abstract interpretation of the parsed source over proposal kind x stored target per group x "
+    "new/unchanged result per recalculation: on every abstract path the returned request is the "
+    "sum of both groups' current targets and the second-computed group's bounds are the system "
+    "bounds shifted by the first group's current target; _calculate_shifted_bounds shifts both "
+    "inclusion bounds alike; requests are built only from that result; the bounds tracker "
+    "stores before recomputing; regular reports use op-shifted bounds. In-bounds of the sum is "
+    "the documented composition with C03.ENV, each link machine-checked. Timing not decided.",
+    "Trusted: the modelled contract of Matryoshka.calculate_target_power/get_target_power (None = "
+    "unchanged or no proposals), read from source; Quantity truthiness is a None test.",
+    "DESIGN.md §2 C11")
+
 PENDING_REASON = ("no static check is registered for this property yet in this revision of the "
                   "machinery (planned rules are in DESIGN.md §2); nothing is claimed for it")
 
